@@ -46,6 +46,7 @@ type caseT struct {
 	Outcome      int  // subject handler: 0 success, 1 error, 2 panic
 	SlowLogUs    int  // the logger's Error() takes this long (loggers do I/O)
 	NegTimeout   bool // CloseTimeout is negative (a deadline that already passed)
+	PubBlocks    bool // "publishing" point: the subject's Publish call returns only once the publisher has been closed (a client that flushes on Close)
 	ViaCtx       bool // the shutdown is started by cancelling the context given to Run (the Close callers follow)
 	SubEnds      bool // every subscription ends by itself (channel closed by the subscriber) while the subject invocation runs; the router then closes itself
 	Noise        []uint8
@@ -102,6 +103,11 @@ func genCase(t *rapid.T) caseT {
 	c.Outcome = rapid.SampledFrom([]int{0, 0, 1, 2, 2}).Draw(t, "subjectOutcome")
 	if c.Point == "publishing" || c.Point == "before-settle" {
 		c.Outcome = 0 // these points are only reached by a successful handler
+	}
+	if c.Point == "publishing" && !c.GoChannel && rapid.Bool().Draw(t, "publishReturnsOnlyWhenThePublisherIsClosed") {
+		// nothing here is about the timeout: Close has all the time it needs
+		c.PubBlocks = true
+		c.CloseTimeout = 5 * time.Second
 	}
 	c.SlowLogUs = rapid.SampledFrom([]int{0, 0, 300, 2000}).Draw(t, "loggerErrorDurationUs")
 	if c.Point == "in-handler" && !c.SlowDrain && !wantSubEnds && rapid.IntRange(0, 5).Draw(t, "negativeCloseTimeout") == 0 {
@@ -300,6 +306,15 @@ func runCase(c caseT) (viol []string, held bool) {
 		name, topic := fmt.Sprintf("h%d", i), fmt.Sprintf("t%d", i)
 		if c.WithPub[i] {
 			pubs[i] = lib.NewScriptPub("")
+			if c.PubBlocks && i == c.SubjectOn {
+				p := pubs[i]
+				p.OnPublish = func(pc *lib.PubCall) error {
+					if len(pc.Msgs) == 1 && pc.Msgs[0].UUID == "out-subject" {
+						lib.WaitUntil(4*lib.Live, func() bool { return p.CloseCalls() > 0 })
+					}
+					return nil
+				}
+			}
 			handles = append(handles, router.AddHandler(name, topic, sub, "out", pubs[i], handler(true)))
 		} else {
 			h := handler(false)
@@ -439,6 +454,10 @@ func runCase(c caseT) (viol []string, held bool) {
 		}
 	}
 	closeTook := time.Since(t0)
+	if c.PubBlocks && held && anyErr {
+		// Close closes the publisher, the Publish call returns, the message is settled: nothing is left to wait for
+		bad("liveness: the subject's Publish returns as soon as its publisher is closed, but Close returned an error after %v (CloseTimeout %v)", closeTook, c.CloseTimeout)
+	}
 	if c.Point == "in-handler" && c.HandlerDur == 3 && c.SlowDrain && held && closeTook > c.CloseTimeout+3*time.Second {
 		// the subscriber's own Close() waits for its in-flight message here; Router.Close must not wait for that beyond its timeout
 		bad("liveness: the handler outlives CloseTimeout (%v) by 6s and the Close callers returned only after %v: Close waited for more than its timeout", c.CloseTimeout, closeTook)
@@ -468,17 +487,14 @@ func runCase(c caseT) (viol []string, held bool) {
 			}
 		}
 	}
-	// "closes every handler's ... publisher": also when Close gives up on the running invocations. (Only where the receive
-	// loops end on their own at Close: a subscriber that keeps its channel open until its message is settled keeps the loop.)
+	// "closes every handler's ... publisher": also when Close gave up on the running invocations - not necessarily by the
+	// moment Close returns its error (a deadline that has already passed returns at once, the receive loops close their
+	// publishers when they end), but soon. (Only where the receive loops end on their own at Close: a subscriber that keeps
+	// its channel open until its message is settled keeps the loop.)
 	if anyErr && !c.SlowDrain && !c.GoChannel && !c.SubEnds && !c.ViaCtx {
-		for k, r := range results {
-			if r.err == nil {
-				continue
-			}
-			for pi, n := range r.pubClosed {
-				if n == 0 {
-					bad("close: publisher %d was not closed when Close caller %d returned %q", pi, k, r.err)
-				}
+		for pi, p := range pubs {
+			if p != nil && !lib.WaitUntil(lib.Live, func() bool { return p.CloseCalls() > 0 }) {
+				bad("close: publisher of handler %d was not closed within %v after Close had returned an error", pi, lib.Live)
 			}
 		}
 	}
@@ -554,7 +570,7 @@ func TestGracefulClose(t *testing.T) {
 			path := lib.WriteReplay("TestGracefulClose", "C06", map[string]any{"property": "C06", "case": c, "violations": v})
 			t.Fatalf("violation of C06 (%d):\n  %s\ncase: %s\nreplay: %s", len(v), strings.Join(v, "\n  "), c, path)
 		}
-		lib.Case(c.String(), held, "point:"+c.Point, fmt.Sprintf("held=%v", held), fmt.Sprintf("gochannel=%v", c.GoChannel), fmt.Sprintf("subscriptions-end-by-themselves=%v", c.SubEnds), fmt.Sprintf("stopped-through-run-context=%v", c.ViaCtx))
+		lib.Case(c.String(), held, "point:"+c.Point, fmt.Sprintf("held=%v", held), fmt.Sprintf("gochannel=%v", c.GoChannel), fmt.Sprintf("subscriptions-end-by-themselves=%v", c.SubEnds), fmt.Sprintf("stopped-through-run-context=%v", c.ViaCtx), fmt.Sprintf("publish-blocks-until-publisher-closed=%v", c.PubBlocks))
 		if held {
 			lib.Sample(map[string]any{"test": "GracefulClose", "case": c.String()})
 		}
